@@ -122,6 +122,8 @@ func reqURL(path, vers, ext string) string {
 	return "/mod/" + ep + "/@v/" + ev + "." + ext
 }
 
+var schedMu sync.Mutex
+
 func isPseudo(v string) bool { return module.IsPseudoVersion(v) }
 
 // checkDirectory serves mods and checks every stored version and the near-misses:
@@ -162,6 +164,8 @@ func checkDirectoryOnce(dir string, mods []modVer, st *stats, hashFirst bool) st
 		stored[m.Path+"@"+m.Vers] = m
 		paths[m.Path] = true
 	}
+	first := map[string]response{}
+	var firstOrder []string
 	do := func(url string) (response, string) {
 		r, pan := get(h, url)
 		if st != nil {
@@ -169,6 +173,11 @@ func checkDirectoryOnce(dir string, mods []modVer, st *stats, hashFirst bool) st
 		}
 		if pan != nil {
 			return r, fmt.Sprintf("GET %s panics: %v", url, pan)
+		}
+		if _, ok := first[url]; !ok {
+			// keep a private copy: the server must not change bytes it has handed out
+			first[url] = response{Status: r.Status, Body: append([]byte(nil), r.Body...)}
+			firstOrder = append(firstOrder, url)
 		}
 		return r, ""
 	}
@@ -310,6 +319,17 @@ func checkDirectoryOnce(dir string, mods []modVer, st *stats, hashFirst bool) st
 		}
 		if r.Status != 404 {
 			return fmt.Sprintf("GET %s = %d, want 404", url, r.Status)
+		}
+	}
+	// every request once more, after all the others: the same answer, byte for byte
+	for _, url := range firstOrder {
+		r, pan := get(h, url)
+		if pan != nil {
+			return fmt.Sprintf("GET %s (repeated) panics: %v", url, pan)
+		}
+		f := first[url]
+		if r.Status != f.Status || !bytes.Equal(r.Body, f.Body) {
+			return fmt.Sprintf("GET %s answered %d %q the first time and %d %q when asked again after other requests", url, f.Status, head(f.Body), r.Status, head(r.Body))
 		}
 	}
 	return ""
@@ -498,7 +518,7 @@ func concScenarios(th bool) []scenario {
 func allModVers(th bool) []modVer {
 	paths := []string{"a.com/m", "a.com/Mixed/Case", "a.com/m/v2", "a.com/vault"}
 	verss := []string{"v1.0.0", "v1.2.3-pre.1", "v2.0.0+incompatible", "v2.0.0", "v0.0.0-20200101000000-abcdef123456"}
-	files := []string{"go.mod", "x.go", "sub/y.go", ".hidden", "sub/.h"}
+	files := []string{"go.mod", "x.go", "sub/y.go", ".hidden", "sub/.h", "sub/.d/z.go", ".d/w.go"}
 	var out []modVer
 	for _, p := range paths {
 		for _, v := range verss {
@@ -537,12 +557,26 @@ func main() {
 			kit.Harness("bad case: %v", err)
 		}
 		if c.Kind == "directory" {
-			d := filepath.Join(root, fmt.Sprintf("replay%d", atomic.AddInt64(&rseq, 1)))
-			if v := checkDirectory(d, c.Mods, nil); v != "" {
-				return []kit.V{{Key: dirKey(v, c.Mods), What: v, Case: c}}
+			// The package may carry state from one server to the next in the same
+			// process (a package-level pool or cache): a case that needs such history
+			// is replayed several times, alternating with requests to a server over a
+			// different directory. The oracle is a function of the responses of one
+			// server, so a violation on any repetition is genuine.
+			noise := []modVer{{Path: "n.org/x", Vers: "v1.0.0", Layout: "txtar"}, {Path: "n.org/y", Vers: "v2.0.0", Layout: "txt"}}
+			for try := 0; try < 8; try++ {
+				d := filepath.Join(root, fmt.Sprintf("replay%d", atomic.AddInt64(&rseq, 1)))
+				if v := checkDirectory(d, c.Mods, nil); v != "" {
+					return []kit.V{{Key: dirKey(v, c.Mods), What: v, Case: c}}
+				}
+				os.RemoveAll(d)
+				nd := filepath.Join(root, fmt.Sprintf("replaynoise%d", atomic.AddInt64(&rseq, 1)))
+				checkDirectory(nd, noise, nil)
+				os.RemoveAll(nd)
 			}
 			return nil
 		}
+		schedMu.Lock() // one scheduler per process
+		defer schedMu.Unlock()
 		writeDir(concDir, concMods)
 		in := &instance{sc: *c.Scenario, dir: concDir, solo: soloResponses(concDir, *c.Scenario)}
 		e := sched.Run(in.body, sched.Options{Prefix: c.Choices, Trace: true, Horizon: 5000})
@@ -551,6 +585,15 @@ func main() {
 			return nil
 		}
 		return []kit.V{{Key: fmt.Sprintf("%s scenario=%q", class, c.Scenario.Name), What: what, Case: c}}
+	}
+	// Several workers of the main pass serve different directories at the same
+	// time in one process: a directory case that only fails in such company is
+	// replayed next to servers over another directory.
+	r.ConcurrentReplay = true
+	r.Noise = func(i int) {
+		nd := filepath.Join(root, fmt.Sprintf("noise%d", atomic.AddInt64(&rseq, 1)))
+		checkDirectory(nd, []modVer{{Path: "n.org/x", Vers: "v1.0.0", Layout: "txtar", Files: []string{"a.go"}}, {Path: "n.org/y", Vers: "v2.0.0", Layout: "txt", Files: []string{"b.go", "c/d.go"}}}, nil)
+		os.RemoveAll(nd)
 	}
 	r.MaybeReplay()
 
@@ -597,7 +640,7 @@ func main() {
 		}
 	}
 	layouts := []string{"txt", "txtar", "dir"}
-	fsets := [][]string{{"go.mod", "x.go"}, {"go.mod", ".hidden", "sub/.h", "sub/y.go"}, nil}
+	fsets := [][]string{{"go.mod", "x.go"}, {"go.mod", ".hidden", "sub/.h", "sub/y.go", "sub/.d/z.go", ".d/w.go"}, nil}
 	for i, a := range pvs {
 		for j, b := range pvs {
 			if j <= i {
